@@ -18,6 +18,8 @@ Decided == E.act.status \in {"ok", "err"}
 NoneMissed == Decided => \A c \in Codes : (Must(c, E.doc) => c \in Reported) \/ Say("Missed_" \o c)
 \* every reported validation code names a rule the document can be said to break
 NoneSpurious == Decided => \A c \in Codes : (c \in Reported => May(c, E.doc)) \/ Say("Spurious_" \o c)
+\* a rejection is explained by validation rules only (E0xxx codes name no rule of the problem definition)
+NoUnexplainedCode == Decided => \A c \in Reported : c \in Codes \/ Say("Unexplained_" \o c)
 \* accepted exactly when no rule is broken: a document that breaks no rule under any reading is accepted, and a rejection carries a code
 AcceptedWhenClean == (Decided /\ MaySet(E.doc) = {}) => (E.act.status = "ok" \/ Say("RejectedClean"))
 RejectionHasCode == (E.act.status = "err") => (Reported # {} \/ Say("RejectionWithoutCode"))
